@@ -257,7 +257,7 @@ class Replayer:
     def bad(self, sig, what):
         if sig == EMPTY_SIG: self.stop = True      # the real context has diverged for good (it loads where the program's empty dict should be served): the case ends
         if sig not in self.sigs:
-            self.sigs.add(sig); self.bads.append((sig, what))
+            self.sigs.add(sig); self.bads.append((sig, " ".join(str(what).split())))
 
     # -- context attributes
     def _get(self):
@@ -371,7 +371,7 @@ class Replayer:
         self.reads = []; self.k = k
         pid0 = os.getpid()
         try:
-            if a in ("run", "filter") and self.mode == "virtual" and st["ret"]["x"] == "ok" and st["ret"]["v"]["seen"]["multi"]:
+            if a in ("run", "filter") and self.mode == "virtual":        # (also when the spec expects no workers: the real code may think otherwise)
                 self.nruns += 1
                 out = run_virtual(lambda: self.call(st), self.seed * 1000 + k, self.fresh_attrs)
                 if out["verdict"] != "ok":
@@ -548,7 +548,7 @@ class Replayer:
         if len(snaps) != 3 or sorted(x["tag"] for x in snaps) != [0, 1, 2]:
             self.bad("%s:results" % a, "%s: the three tasks returned %r" % (where, [x.get("tag") for x in snaps])); return
         for x in snaps:
-            inworker = x["thr"].startswith("v-W") if self.mode == "virtual" else x["pid"] != pid0
+            inworker = x["thr"].startswith("v-W") or x["pid"] != pid0
             tag = "workers" if inworker else "in-process"
             if inworker != s["multi"]:
                 if not (a == "run" and self.eff_bad):       # (a consequence of the wrong settings already reported)
